@@ -19,9 +19,9 @@ RULE = ('cases: 1-3 existing routes (tours of 0-4 activities; one case in three:
         'insertion observer (first insertion = entry 2 of the sorted collected vector). non-trivial = distinct cases with >= 2 successful pairs '
         'of different cost. Every 19th case is a whole Solver run (op layouts): 12-20 unit-demand jobs, vehicles of capacity 2-3 (so the '
         'solution has 4+ tours and the decomposition search forms several groups of tours), 60-200 generations, solved under 3-4 of the layouts '
-        '1x1, 1x4, 2x1, 2x2, 3x2, 4x1, 8x1, default; on every returned solution: each job exactly once (served or unassigned), nothing '
+        '1x1, 1x4, 2x1, 2x2, 3x2, 4x1, 8x1, default plus always one of 0x1 / 0x4 (empty vector of pools); on every returned solution: each job exactly once (served or unassigned), nothing '
         'foreign, no vehicle twice, no tour above capacity. Every 19th case is op choose (16 generated result pairs through the real choose_best_result) and '
-        'every 19th op decompose (the real DecomposeSearch around an identity inner search on 4-9 tours + 0-2 unassigned jobs under 3-4 layouts: every tour '
+        'every 19th op decompose (the real DecomposeSearch around an identity inner search on 4-9 tours + 0-2 unassigned jobs under 4-5 layouts (one of them with zero pools): every tour '
         'must come back exactly once).')
 TRUSTED = ["rayon's fold/reduce/collect only produce reductions over contiguous chunks in order and an order-preserving collect (documented contract); real thread interleavings are sampled, not enumerated",
            'ThreadPool::execute = rayon install returns the closure\'s value (modelled as such)',
@@ -31,6 +31,7 @@ ASSUMPTIONS = ['costs compared as integer vectors (integer data)',
 
 
 LAYOUTS = [[1, 1], [1, 4], [2, 1], [2, 2], [3, 2], [4, 1], [8, 1], None]
+ZERO_POOLS = [[0, 1], [0, 4]]
 
 
 def gen_layouts_case(rng):
@@ -48,6 +49,7 @@ def gen_layouts_case(rng):
         vehicles.append({'start': 0, 'end': 0, 'shift_start': 0, 'shift_end': 'inf', 'cap': cap,
                          'costs': [rng.range(0, 20), 1, rng.range(0, 2), 0, 0]})
     layouts = [LAYOUTS[i] for i in sorted(set([0, 2] + [rng.below(len(LAYOUTS)) for _ in range(2)]))]
+    layouts.append(rng.choice(ZERO_POOLS))      # an empty vector of thread pools (C15-F2, repaired): tasks run without a pool
     return {'op': 'layouts', 'n': w['n'], 'dur': w['dur'], 'dist': w['dist'], 'vehicles': vehicles, 'jobs': jobs,
             'layouts': layouts, 'generations': rng.choice([60, 120, 200])}
 
@@ -80,6 +82,7 @@ def gen_decompose_case(rng):
     unassigned = [{'id': 200 + i, 'places': [{'loc': rng.range(1, w['n'] - 1), 'svc': 0, 'tws': [[0, 'inf']]}], 'dem': [0, 0, 50, 0]}
                   for i in range(rng.range(0, 2))]
     layouts = [LAYOUTS[i] for i in sorted(set([0, 2] + [rng.below(len(LAYOUTS)) for _ in range(2)]))]
+    layouts.append(rng.choice(ZERO_POOLS))
     return {'op': 'decompose', 'n': w['n'], 'dur': w['dur'], 'dist': w['dist'], 'tours': tours, 'unassigned': unassigned,
             'layouts': layouts, 'range': [2, rng.range(2, 4)], 'repeat': rng.range(1, 2)}
 
@@ -475,7 +478,7 @@ def classify(c, impl):
     return labs
 
 
-MANIFEST_TEXT = ('Machine-checked proof (Coq, 42 theorems): (1) for every strict weak order on costs and every reduction tree over contiguous chunks '
+MANIFEST_TEXT = ('Machine-checked proof (Coq, 44 theorems): (1) for every strict weak order on costs and every reduction tree over contiguous chunks '
                  "(everything rayon's fold/reduce can produce) the modelled fold step (eval_job_insertion_in_route with its skip, route-violation, "
                  'prune-by-route-cost and best_known_cost exits) and reducer (choose_best_result as written, with its failure bookkeeping) over the row-major '
                  'cartesian product of routes and jobs return EXACTLY the left-to-right reduction of the individually evaluated pairs whenever route-level '
@@ -484,7 +487,7 @@ MANIFEST_TEXT = ('Machine-checked proof (Coq, 42 theorems): (1) for every strict
                  "RecreateWithSkipBest's pick) does not depend on the chunking; choose_best_result is associative, has make_failure as right unit, is commutative "
                  'up to cost. (2) The lower-bound hypothesis is proved for the concrete evaluator model (Model/Core.v, distance objective, non-negative matrix with '
                  'triangle inequality), including that the scan started from best_known_cost behaves as the abstract step assumes; the complementary witness '
-                 '(non-metric matrix, -80 vs -98) is finding C15-F1. (3) Pool layout: results of search_many are op(solution i) for every pool count >= 1 and '
+                 '(non-metric matrix, -80 vs -98) is finding C15-F1. (3) Pool layout: results of search_many are op(solution i) for every pool count >= 0 and '
                  'without pools; the decomposition groups partition the route indices for all proximity lists and group sizes, and refine+merge returns every '
                  'route once. The model is tied to /repo on every run: real step, reducer and evaluate_all under pools of 1,2,3,4,5,8 threads, under all two-chunk splits and six further '
                  'explicit schedules, pair kinds and failure fields, the collected vectors of both branches, the first insertion of RecreateWithSkipBest, '
@@ -496,6 +499,7 @@ MANIFEST_NOTE = ('Trusted: Coq kernel+vm_compute; harness; rayon contract (conti
                  'general (finding C15-F1). RegretInsertionEvaluator\'s use of the collected vector is not modelled. The clause "full solver runs remain valid '
                  'under every parallelism configuration" is exercised by the end-to-end oracle of C01 under several Parallelism layouts (small problems, full '
                  'validity checker in Coq) and by the layouts / decompose streams of this check (many-tour problems, job accounting and capacity only); '
-                 'Parallelism::new(0, _) makes the solver panic (remainder by zero; theorem C15_zero_pools_panics_refuted, replay notes/C15_zero_pools_replay.json, '
-                 'proposed finding, not generated).')
+                 'Parallelism::new(0, _) made every solver run panic (remainder by zero): finding C15-F2 of this check, repaired in /repo by b5c201c; the model '
+                 'follows the repaired code (C15_zero_pools_run_inline; C15_zero_pools_panics_prefix_refuted for the old function), layouts 0x1 / 0x4 are generated '
+                 'on every run and corpus/C15/zero_pools.json is the regression case.')
 MANIFEST_TECHNIQUE = 'Coq proof over all reduction trees, grids and pool counts + vm_compute differential correspondence + multi-pool / multi-layout sampling'
